@@ -103,7 +103,8 @@ func TestQuery(t *testing.T) {
 '''
 
 PATTERNS = ["", "Test.*/ping", "TestQuery/ping", "TestAlpha", "^TestAlpha$", "TestZeta", "Alpha|Zeta", "TestAlpha/Sub1", "TestAlpha/Sub2", "TestBeta", "Beta$",
-            "TestZeta|Sub2", "TestZeta|1", "TestAlphabet|1", "TestAlphabet|Sub2", "^TestZ", "TestSkipper", "TestPartly", "TestPartly/runs", "Alphabet"]
+            "TestZeta|Sub2", "TestZeta|1", "TestAlphabet|1", "TestAlphabet|Sub2", "^TestZ", "TestSkipper", "TestPartly", "TestPartly/runs", "Alphabet",
+            "^TestAlpha$/^Sub1$", "/Sub2", "TestAlpha/|TestZeta", "Alpha/Sub1|Zeta/Sub2", "^TestAl/2$", "^TestZeta$|^TestBeta$", "^TestAlpha|^TestQ"]
 
 
 class C08(CleanBase):
@@ -112,7 +113,7 @@ class C08(CleanBase):
     rule = ("white-box: Clean after histories in which some tests called snaps.Skip/Skipf/SkipNow (parents, children, siblings "
             "sharing a name prefix), all modes; black-box: a generated package (tests, subtests, prefix-related names, a skipping test, "
             "a partly skipped test, standalone and custom-named files, TestMain with Clean) recorded once and then run under REAL "
-            "`go test -run <pattern>` for 18 patterns (plain names, substrings, alternations, multi-level A/b, anchors) x {report, clean} "
+            "`go test -run <pattern>` for 27 patterns (plain names, substrings, alternations, multi-level A/b, anchors) x {report, clean} "
             "mode, Go's own -v output being the oracle for which tests ran; every entry/file of a test that did not run must survive "
             "and must not be listed; non-trivial = a pattern that filtered out at least one test")
     outside_model = ("regexp syntax beyond alternations of anchored literals; Go's per-level -run selection is NOT modelled (the real runner is the oracle); "
@@ -249,6 +250,7 @@ class C08(CleanBase):
 
         base_files, base_entries = image(base)
         fails, known, runs = [], [], 0
+        ran_by_pat = {}
         pats = PATTERNS if tier == "thorough" else PATTERNS
         for pat in pats:
             for mode in ("report", "clean"):
@@ -261,6 +263,7 @@ class C08(CleanBase):
                 p = subprocess.run(args, cwd=mod, env=e2, stdout=subprocess.PIPE, stderr=subprocess.STDOUT, text=True, timeout=900)
                 runs += 1
                 ran = set(re.findall(r"^=== RUN\s+(\S+)", p.stdout, re.M))
+                ran_by_pat.setdefault(pat, set()).update(ran)
                 skipped = set(re.findall(r"^\s*--- SKIP: (\S+)", p.stdout, re.M))
                 executed = ran - skipped
                 files, entries = image(snapdir)
@@ -304,9 +307,30 @@ class C08(CleanBase):
                         sig = self.classify(pat, i.decode(), f, name, ran, skipped)
                         (known if sig else fails).append({"msg": what, "sig": sig})
         shutil.rmtree(snapdir, ignore_errors=True)
+        # ---- tie of Model/GoRun.v: the model of Go's own -run selection against what the real runner ran (patterns of the
+        # model's class: alternations of '/'-separated, optionally anchored literals)
+        sel_checked = 0
+        try:
+            import common
+            universe = sorted(ran_by_pat.get("", set()))
+            inclass = [p_ for p_ in pats if p_ and re.fullmatch(r"[A-Za-z0-9_^$|/]*", p_)]
+            lines = ["op gosel pat=%s names=%s" % (hx(p_.encode()), ",".join(hx(n.encode()) for n in universe)) for p_ in inclass]
+            out = common.run_model(common.build_driver(), {0: lines}, shards=1)[0]
+            rows = [l for l in out if l.startswith("gosel ")]
+            for p_, row in zip(inclass, rows):
+                sel = dict(x.split(":") for x in row.split("sel=", 1)[1].split(",") if ":" in x)
+                for n in universe:
+                    sel_checked += 1
+                    m_ = sel.get(hx(n.encode())) == "1"
+                    g_ = n in ran_by_pat.get(p_, set())
+                    if m_ != g_:
+                        fails.append({"msg": "go_selects (Model/GoRun.v) says %s for test %s under -run %r, the real runner %s it" % (
+                            "selected" if m_ else "not selected", n, p_, "ran" if g_ else "did not run"), "tie": True})
+        except Exception as ex:      # the tie itself could not be evaluated
+            fails.append({"msg": "go_selects tie could not be evaluated: %r" % (ex,), "tie": True})
         self._bb_known = known
         hits = sorted(set(k["sig"] for k in known))
-        return fails, {"blackbox_runs": runs, "blackbox_patterns": len(pats), "blackbox_known_finding_hits": len(known),
+        return fails, {"blackbox_runs": runs, "blackbox_patterns": len(pats), "go_selects_model_vs_runner_comparisons": sel_checked, "blackbox_known_finding_hits": len(known),
                        "blackbox_known_kinds": hits, "_known_hits": [{"K3K4": "K3/K4"}.get(h, h) for h in hits]}
 
     @staticmethod
